@@ -330,3 +330,84 @@ Ltac full_walk leaf :=
       tryif has_sqrt g then (locals_out; leaf) else (destruct g as [?|?]; full_walk leaf)
   | |- _ => locals_out; leaf
   end.
+
+(* ---- walk2: the walk that also simplifies radicals on the fly -------------------------------------------------
+   Before a `let` whose body contains a radical is introduced, and before a gate whose condition contains one is
+   decided, `radtac e` is called on an innermost radicand e: it must rewrite `sqrt e` away in the goal (to 2|p|, +-2p or
+   1).  Local definitions therefore never contain radicals and the repeated normalisations of the dispatchers do not
+   blow the terms up.  Gates are decided by linear arithmetic on the unfolded definitions when possible. *)
+Ltac decide_gate g :=
+  lazymatch type of g with
+  | {?A} + {?B} =>
+      first [ let H := fresh in assert (H : A) by (locals_out; abs_lra; lra); destruct g as [_|?]; [clear H | contradiction]
+            | let H := fresh in assert (H : B) by (locals_out; abs_lra; lra); destruct g as [?|_]; [contradiction | clear H]
+            | destruct g as [?|?] ]
+  end.
+Ltac walk2 radtac leaf :=
+  lazymatch goal with
+  | |- ?P (let t := ?v in @?b t) =>
+      lazymatch v with
+      | context [sqrt _] => (let e := inner_rad v in radtac e); walk2 radtac leaf
+      | _ => let y := fresh "t" in pose (y := v); change (P (b y)); cbv beta; walk2 radtac leaf
+      end
+  | |- ?P (if Rle_dec (Rabs ?e) ?c then ?a else ?b) =>
+      first [ let H := fresh in
+              assert (H : Rabs e <= c) by (replace e with 0 by (locals_out; first [hring | ring]); rewrite Rabs_R0; lra);
+              destruct (Rle_dec (Rabs e) c) as [_|?]; [clear H | contradiction]
+            | decide_gate (Rle_dec (Rabs e) c) ]; walk2 radtac leaf
+  | |- ?P (if ?g then ?a else ?b) =>
+      lazymatch g with
+      | context [sqrt _] => (let e := inner_rad g in radtac e); walk2 radtac leaf
+      | _ => decide_gate g; walk2 radtac leaf
+      end
+  | |- _ => locals_out; leaf
+  end.
+
+(* Shepperd: the first radical met on a path is the pivot's, 2|p| with p^2 >= 1/4 from the path hypotheses (then the
+   sign of p is split); every later one is a norm equal to 1 *)
+Ltac shep_piv e p :=
+  let E := fresh "E" in
+  assert (E : sqrt e = 2 * Rabs p) by (replace e with (4 * (p * p)) by (locals_out; rad_eq); apply sqrt_4sq);
+  let Hq := fresh "Hq" in
+  assert (Hq : 1/4 <= p * p) by (locals_out; lra);
+  rewrite E; clear E;
+  let Hs := fresh "Hs" in
+  destruct (Rlt_dec 0 p) as [Hs|Hs];
+  [ rewrite (Rabs_right p) by lra | assert (p < 0) by nra; rewrite (Rabs_left p) by lra ].
+Ltac rad_is_one e :=
+  let E := fresh "E" in
+  assert (E : sqrt e = 1) by (replace e with 1 by (locals_out; first [ rad_eq | rad_eqf ]); apply sqrt_1);
+  rewrite E; clear E.
+Ltac shep_rad w x y z e := first [ shep_piv e w | shep_piv e x | shep_piv e y | shep_piv e z | rad_is_one e ].
+Ltac shep_fin := unfold signed_q;
+  first [ exists 1; split; [left; reflexivity|]; unfold qsc; val_eq; field; lra
+        | exists (-1); split; [right; reflexivity|]; unfold qsc; val_eq; field; lra ].
+
+(* Hughes: the first radical is the scalar part's, 2|w| with w <> 0 known (Hw : c < |w|); then norms *)
+Ltac w_piv e w x y z U Hw :=
+  let E := fresh "E" in
+  assert (E : sqrt e = 2 * Rabs w)
+    by (locals_out; clip_unit w x y z U; (let e' := goal_rad in replace e' with (4 * (w * w)) by rad_eq); apply sqrt_4sq);
+  rewrite E; clear E;
+  let Hs := fresh "Hs" in
+  destruct (Rlt_dec 0 w) as [Hs|Hs];
+  [ rewrite (Rabs_right w) in * by lra
+  | assert (w < 0) by (destruct (Req_dec w 0); [subst; rewrite Rabs_R0 in Hw; lra | lra]); rewrite (Rabs_left w) in * by lra ].
+Ltac hughes_rad w x y z U Hw e := first [ w_piv e w x y z U Hw | rad_is_one e ].
+Ltac hughes_fin w := unfold is_out, qsc;
+  first [ rewrite (Rsgn_pos w) by lra | rewrite (Rsgn_neg w) by lra ]; val_eq; field; lra.
+
+(* Chiaverini / Sarabandi: component radicals are 2|v| (polynomial or quotient radicand), norms are 1 modulo the
+   sign-recovery facts *)
+Ltac rad_2abs e p w x y z U :=
+  let E := fresh "E" in
+  assert (E : sqrt e = 2 * Rabs p)
+    by (locals_out; clip_unit w x y z U; (let e' := goal_rad in replace e' with (4 * (p * p)) by first [ rad_eq | rad_eqf ]); apply sqrt_4sq);
+  rewrite E; clear E.
+Ltac trio_one w x y z Hw Hu := locals_out; sgn_facts w x y z Hw; w_facts w Hw; gen_atoms w; atoms_field w x y z Hu.
+Ltac trio_rad w x y z U Hw Hu e :=
+  first [ rad_2abs e w w x y z U | rad_2abs e x w x y z U | rad_2abs e y w x y z U | rad_2abs e z w x y z U
+        | let E := fresh "E" in
+          assert (E : sqrt e = 1) by (replace e with 1 by (trio_one w x y z Hw Hu); apply sqrt_1); rewrite E; clear E ].
+Ltac trio_fin w x y z Hw Hu :=
+  unfold is_out, qsc; sgn_facts w x y z Hw; w_facts w Hw; gen_atoms w; val_eq; atoms_field w x y z Hu.
